@@ -189,7 +189,7 @@ def rand_cube(rng, kmax: int):
         return (0, bits.ALL)
     if roll < 0.25:
         return bits.cube(_rand_ip(rng), 0)
-    if roll < 0.6:
+    if roll < 0.6 or kmax < 1:
         t = rng.choice([1, 2, 3, 4, 8, 16, 24, 30, 31]) if rng.random() < 0.6 else rng.randint(1, 31)
         return bits.cube(_rand_ip(rng), (1 << t) - 1)
     k = rng.randint(1, kmax)
